@@ -90,6 +90,11 @@ func (r *runner) start() (*proc, error) {
 		p.raceLog = filepath.Join(r.opt.Scratch, fmt.Sprintf("race-%d", wid))
 		env = append(env, "GORACE=halt_on_error=0 history_size=3 log_path="+p.raceLog)
 	}
+	if os.Getenv("GOMAXPROCS") == "" {
+		// up to 16 workers run side by side: 4 Ps each keep real parallelism inside a case without
+		// 256 runnable threads fighting for 16 cores (which starves the workers' collectors)
+		env = append(env, "GOMAXPROCS=4")
+	}
 	env = append(env, "VERIF_SCRATCH="+r.opt.Scratch, "VERIF_WORKER_ID="+fmt.Sprint(wid), "GOTRACEBACK=all")
 	cmd.Env = env
 	cmd.SysProcAttr = &syscall.SysProcAttr{Setpgid: true}
